@@ -18,6 +18,9 @@ func childMain() bool {
 	case "conc":
 		concChild()
 		return true
+	case "journal":
+		journalChild()
+		return true
 	}
 	return false
 }
